@@ -8,7 +8,8 @@ BUILDS = [Build("cr_spec", "harness/c03_callrcu.c", flavor="spec"),
           Build("cr_bp", "harness/c03_callrcu.c", flavor="bp")]
 BUILDS = BUILDS + cross.gp_builds() + cross.fork_builds()   # cross-property core jobs (checks/cross.py)
 RULE = ("every schedule (preemption budget, x86-TSO delays, futex faults) of call_rcu scenarios - default, per-thread, per-CPU and "
-        "RT helpers, concurrent enqueuers, re-enqueue from a callback, helper destroyed with callbacks pending - running the "
+        "RT helpers, concurrent enqueuers, a callback queued while the helper waits for an earlier batch's grace period, re-enqueue from a "
+        "callback, helper destroyed with callbacks pending - running the "
         "repo's urcu-call-rcu-impl.h over the specification flavor (synchronize_rcu returns as early as the specification "
         "allows) and, shallower, over real flavors; oracles: each callback invoked exactly once with its own rcu_head "
         "(lost callback = deadlock/livelock of the awaiting main thread), litmus and interval grace-period oracles, "
